@@ -9,7 +9,7 @@ import json, subprocess
 import vlib, sess
 from astlib import *
 
-SHAPES = ("globals", "locals", "jump", "longjump", "refused-then-continue", "deepfor", "widefor")
+SHAPES = ("globals", "locals", "jump", "longjump", "refused-then-continue", "deepfor", "widefor", "manyparams")
 
 
 def script(shape, n):
@@ -52,6 +52,17 @@ def script(shape, n):
         vs = ", ".join(nm(k) for k in range(n))
         its = ", ".join("fromto(%d, %d)" % (k, k + 2) for k in range(n))
         return ["t = 0", "for %s <- %s for w <- fromto(0, 2) t = t + %s + w" % (vs, its, nm(n - 1)), "t", "1 + 1"], None
+    if shape == "manyparams":
+        # a function with n parameters it never reads (so that no operand address is what overflows): the function value must keep the count
+        def nmp(k):
+            sfx, m = "", k
+            while True:
+                sfx = chr(97 + m % 26) + sfx
+                m //= 26
+                if m == 0:
+                    break
+            return "p" + sfx + "q"
+        return ["f = (%s) -> 7" % ", ".join(nmp(k) for k in range(n)), "f(1)", "f()", "f(1, 2, 3, 4)", "1 + 1"], None
     if shape == "longjump":
         # a conditional whose body is n instructions long and uses no constants (so that the data segment is not what overflows):
         # the jump over the body is about n; with c false the body must be skipped, with c true executed
@@ -126,8 +137,8 @@ def run(tier, replay=None):
     for v in vecs[:: max(1, len(vecs) // 4)][:4]:
         ck.sample(v)
     # ---- scripts crossing the limits
-    sizes = {"quick": {"globals": [8000, 16300, 16400], "locals": [16000, 32700, 32800], "jump": [16000, 32700, 32800], "refused-then-continue": [33000], "longjump": [16000, 33000, 66000], "deepfor": [64, 257, 300], "widefor": [64, 256, 300]},
-             "thorough": {"globals": [4000, 8000, 16000, 16370, 16380, 16390, 16400, 20000, 33000], "locals": [8000, 16000, 32000, 32760, 32766, 32770, 33000, 65530, 65540], "jump": [8000, 16000, 32000, 32760, 32770, 33000, 65530, 65540], "refused-then-continue": [32769, 33000, 66000], "longjump": [8000, 16000, 32760, 32770, 33000, 65530, 65540, 66000, 131100], "deepfor": [16, 64, 255, 256, 257, 258, 300, 513, 1000], "widefor": [16, 64, 255, 256, 257, 300, 513, 1000]}}[tier]
+    sizes = {"quick": {"globals": [8000, 16300, 16400], "locals": [16000, 32700, 32800], "jump": [16000, 32700, 32800], "refused-then-continue": [33000], "longjump": [16000, 33000, 66000], "deepfor": [64, 257, 300], "widefor": [64, 256, 300], "manyparams": [300, 65536, 65537, 65540]},
+             "thorough": {"globals": [4000, 8000, 16000, 16370, 16380, 16390, 16400, 20000, 33000], "locals": [8000, 16000, 32000, 32760, 32766, 32770, 33000, 65530, 65540], "jump": [8000, 16000, 32000, 32760, 32770, 33000, 65530, 65540], "refused-then-continue": [32769, 33000, 66000], "longjump": [8000, 16000, 32760, 32770, 33000, 65530, 65540, 66000, 131100], "deepfor": [16, 64, 255, 256, 257, 258, 300, 513, 1000], "widefor": [16, 64, 255, 256, 257, 300, 513, 1000], "manyparams": [300, 32768, 32769, 65535, 65536, 65537, 65540, 131073]}}[tier]
     # ds0: data segment size after the built-ins are loaded, measured on the real pipeline
     probe = vlib.run_real([{"id": 1, "items": [{"src": "1"}], "stdin": []}])
     cases = []
@@ -184,6 +195,18 @@ def run(tier, replay=None):
             xo = res[n]
             if desc is None and xo["kind"] == "val" and xo["val"] != {"k": "int", "v": lastok}:
                 desc = "after the script x is %s, the last accepted assignment was x = %d" % (json.dumps(xo["val"]), lastok)
+        elif shape == "manyparams":
+            d0 = res[0]
+            if d0["kind"] == "val":
+                for j, nargs in ((1, 1), (2, 0), (3, 4)):
+                    if nargs != n and not (res[j].get("kind") == "err" and res[j].get("err") == "arity"):
+                        desc = "a function with %d parameters was compiled but a call with %d argument(s) gives %s instead of an arity error: the parameter count was not preserved" % (
+                            n, nargs, json.dumps({k: res[j].get(k) for k in ("kind", "val", "err")}))
+                        break
+            elif d0["kind"] != "cerr":
+                desc = "the function: %s" % json.dumps({k: d0.get(k) for k in ("kind", "err", "msg")})
+            if desc is None and res[4].get("val") != I2:
+                desc = "after the function the session does not go on: 1 + 1 gives %s" % json.dumps({k: res[4].get(k) for k in ("kind", "val", "err", "msg")})
         elif shape in ("deepfor", "widefor"):
             d1, d2, d3 = res[1], res[2], res[3]
             want_t = 2 if shape == "deepfor" else (n - 1) * 2 + (n - 1 + 1) * 2 + 2        # sum over the two rounds and w in 0..1 of last variable + w
@@ -260,5 +283,5 @@ def run(tier, replay=None):
                       "have n statements, with n at half the limit (must work), and on both sides of 2^15 (and 2^16) (either outcome, an accepted script must compute the right values; "
                       "more distinct locals than an operand can address must be refused)")
     ck.assumptions += ["the four-limb model is an exact re-encoding of the 64-bit word", "ds0 (data-segment entries used by the built-ins) is measured on the real pipeline and passed to the accounting model",
-                       "function-value counts beyond 16 bits cannot be produced by the compiler (operand addresses limit locals first)"]
+                       "functions whose parameter or local count exceeds the 16-bit fields of a function value are refused at compile time (D25)"]
     return ck.finish()
